@@ -366,3 +366,53 @@ func TestVerifC11Tail(t *testing.T) {
 		}
 	}
 }
+
+// TestVerifC11Idle: a healthy session on which nothing is said for longer than any plausible I/O deadline (33 s), with a poll
+// outstanding for the first 20 s.  What either side says afterwards must still be delivered.
+func TestVerifC11Idle(t *testing.T) {
+	out := verifOpenOut(t)
+	defer out.close()
+	be := newVerifWSBackend()
+	defer be.srv.Close()
+	shim := newVerifShim(be.host(), false)
+	r, id := shim.open("ws://ignored/ws", "1")
+	if r.Status != 200 {
+		out.emit(map[string]interface{}{"kind": "idle", "error": "open failed", "status": r.Status})
+		return
+	}
+	bc := <-be.newC
+	silence := 33 * time.Second
+	res := map[string]interface{}{"kind": "idle", "silence_ms": silence.Milliseconds()}
+	// before the silence: one message each way
+	bc.c.WriteMessage(websocket.TextMessage, []byte("s2c-before"))
+	pr := shim.call("poll", verifSessionBody(id), nil, 25*time.Second)
+	ms, _ := verifDecodePoll(pr.Body, 1)
+	res["before_polled"] = verifMsgSummary(ms)
+	body, _ := json.Marshal([]map[string]interface{}{verifClientMsg(id, verifWSMsg{Type: websocket.TextMessage, Data: []byte("c2s-before")}, 1)})
+	res["before_data_status"] = shim.call("data", body, nil, 10*time.Second).Status
+	bc.waitReceived(1, 3*time.Second)
+	// the silence: one long poll that comes back empty (20 s), then nothing at all
+	var idleStatuses []int
+	end := time.Now().Add(silence)
+	p := shim.call("poll", verifSessionBody(id), nil, 25*time.Second)
+	idleStatuses = append(idleStatuses, p.Status)
+	if d := time.Until(end); d > 0 {
+		time.Sleep(d)
+	}
+	res["idle_poll_statuses"] = idleStatuses
+	// after the silence
+	werr := bc.c.WriteMessage(websocket.TextMessage, []byte("s2c-after"))
+	pr = shim.call("poll", verifSessionBody(id), nil, 25*time.Second)
+	ms, _ = verifDecodePoll(pr.Body, 1)
+	res["after_poll_status"] = pr.Status
+	res["after_polled"] = verifMsgSummary(ms)
+	res["after_s2c_ok"] = werr == nil && len(ms) == 1 && string(ms[0].Data) == "s2c-after"
+	body, _ = json.Marshal([]map[string]interface{}{verifClientMsg(id, verifWSMsg{Type: websocket.TextMessage, Data: []byte("c2s-after")}, 1)})
+	dr := shim.call("data", body, nil, 10*time.Second)
+	res["after_data_status"] = dr.Status
+	ok := bc.waitReceived(2, 3*time.Second)
+	recv := bc.received()
+	res["after_c2s_ok"] = dr.Status == 200 && ok && len(recv) >= 2 && string(recv[len(recv)-1].Data) == "c2s-after"
+	shim.call("close", verifSessionBody(id), nil, 5*time.Second)
+	out.emit(res)
+}
